@@ -6,6 +6,8 @@ import sys
 from common import Check, correspond, decode_result, call_impl, finish_proof_failures
 
 from wordseg import folding
+from wordseg.algos import puddle
+from common import text2j, j2text
 
 
 def dec_folds(w):
@@ -126,6 +128,25 @@ def main():
             impl=(lambda text=text, k=k, fb=fb: impl_fold(text, k, fb)),
             dec=dec_folds, nontrivial=lambda m: True))
         ck.count('malformed')
+    # 4. the clients' fold -> per-fold transformation -> unfold composition (puddle.segment):
+    #    distinct lines, fold counts up to 14, the output must be the input in its original order
+    for n in (range(1, 15) if not ck.thorough else range(1, 31)):
+        text = ['w%d x%d' % (i, i) for i in range(n)]
+        for k in sorted({1, 2, 3, n // 2, n - 1, n, 9, 10, 11, 12, 13}):
+            if not 1 <= k <= n:
+                continue
+
+            def impl(text=text, k=k):
+                return call_impl(lambda: list(puddle.segment(list(text), nfolds=k, njobs=1)))
+
+            def oracle(out, text=text):
+                if out[0] != 'ok':
+                    return 'puddle.segment raised ' + out[1]
+                if [o.replace(' ', '') for o in out[1]] != [t.replace(' ', '') for t in text]:
+                    return 'fold/unfold inside puddle.segment does not restore the original order: %r' % (out[1][:4],)
+                return None
+            cases.append(dict(op=1101, arg=[text2j(text), [], 2, 0, k], site='puddle.segment(fold/unfold)', desc={'n': n, 'nfolds': k, 'client': 'puddle'},
+                              impl=impl, dec=lambda w: decode_result(w, j2text), oracle=oracle, nontrivial=lambda m: True))
     correspond(ck, cases)
     n, problems = ck.coq_recheck()
     finish_proof_failures(ck, failures + problems)
